@@ -43,7 +43,8 @@ Definition sent_eqb (a b : sent) : bool :=
   String.eqb (s_auth a) (s_auth b) && String.eqb (s_body a) (s_body b).
 
 Definition result_eqb (a b : result) : bool :=
-  sent_eqb (rs_sent a) (rs_sent b) && String.eqb (rs_sub a) (rs_sub b) && str_list_eqb (rs_scopes a) (rs_scopes b).
+  sent_eqb (rs_sent a) (rs_sent b) && String.eqb (rs_sub a) (rs_sub b) && str_list_eqb (rs_scopes a) (rs_scopes b) &&
+  str_list_eqb (rs_aud a) (rs_aud b) && Bool.eqb (rs_active a) (rs_active b).
 
 Definition outcome_eqb (a b : outcome) : bool :=
   match a, b with
@@ -193,7 +194,7 @@ Definition check (fx : fixes) (c : case) : verdict :=
   {| v_corr := corr fx c;
      v_prop := prop c;
      v_guards := guards [(1%Z, g_F1 steps rp && negb (fx1 fx)); (2%Z, g_F2 steps && negb (fx2 fx));
-                         (3%Z, g_F3 steps && negb (fx3 fx));
+                         (3%Z, g_F3 steps && negb (fx3 fx)); (10%Z, g_F10 steps && negb (fx10 fx));
                          (4%Z, g_F4 fx (H_tab (c_sha c)) steps); (6%Z, g_F6 steps); (7%Z, g_F7 steps)] |}.
 
 (* ------------------------------------------------------------------ short names for generated files *)
@@ -205,14 +206,15 @@ Definition po := POutput.
 Definition ph := PReqHeader.
 Definition pa := PAuthData.
 Definition epc u m h a := {| e_url := u; e_method := m; e_headers := h; e_auth := a |}.
-Definition ins k id e fh fc up p v t sc ex :=
+Definition ins k id e fh fc up p v t sc au se ex :=
   {| i_kind := k; i_id := id; i_ep := e; i_fwdh := fh; i_fwdc := fc; i_up := up; i_payload := p;
-     i_values := v; i_ttl := t; i_scopes := sc; i_exprs := ex |}.
+     i_values := v; i_ttl := t; i_scopes := sc; i_aud := au; i_session := se; i_exprs := ex |}.
 Definition rq h c o sid sj cr :=
   {| q_headers := h; q_cookies := c; q_outputs := o; q_sub_id := sid; q_sub_json := sj; q_cred := cr |}.
 Definition snt u m h c a b :=
   {| s_url := u; s_method := m; s_headers := h; s_cookies := c; s_auth := a; s_body := b |}.
-Definition res s sub sc := {| rs_sent := s; rs_sub := sub; rs_scopes := sc |}.
+Definition res s sub sc := {| rs_sent := s; rs_sub := sub; rs_scopes := sc; rs_aud := []; rs_active := true |}.
+Definition resx s sub sc au ac := {| rs_sent := s; rs_sub := sub; rs_scopes := sc; rs_aud := au; rs_active := ac |}.
 Definition ob k h n o f fn := {| o_key := k; o_hit := h; o_calls := n; o_out := o; o_fresh := f; o_fcalls := fn |}.
 Definition stp i q ho vo o := {| os_step := {| st_inst := i; st_req := q; st_ho := ho; st_vo := vo |}; os_obs := o |}.
 Definition wld t d := {| t_tok := t; t_deny := d |}.
